@@ -4,4 +4,5 @@ From Coq Require Import ExtrOcamlBasic.
 From Flatcc.Refmap Require Import RefmapModel.
 Extraction Language OCaml.
 Extraction "../ocaml/refmap/model.ml"
-  rm_init insert find resize reset clear refmap_hash tget count buckets table above probe clone.
+  rm_init insert find resize reset clear refmap_hash tget count buckets table probe clone
+  ref_insert_buckets ref_resize_buckets.
